@@ -239,6 +239,8 @@ mod builder;
 mod context;
 mod executor;
 mod stream;
+#[cfg(feature = "crux_verif")]
+pub mod verif_hooks;
 
 use std::future::Future;
 use std::sync::atomic::AtomicBool;
